@@ -86,12 +86,24 @@ func sCheckThesauri(seg segment.Segment, sp *sSynSpec, except *roaring.Bitmap, e
 		vAssert(err == nil && thes != nil, tag+"thesaurus")
 		// left-hand terms in ascending order
 		var wantTerms []string
-		for _, t := range vSynTerms {
+		allTerms := append([]string{}, vSynTerms...)
+		for t := range sp.pairs[th] {
+			known := false
+			for _, k := range allTerms {
+				if k == t {
+					known = true
+				}
+			}
+			if !known {
+				allTerms = append(allTerms, t)
+			}
+		}
+		sort.Strings(allTerms)
+		for _, t := range allTerms {
 			if len(sp.pairs[th][t]) > 0 {
 				wantTerms = append(wantTerms, t)
 			}
 		}
-		sort.Strings(wantTerms)
 		it := thes.AutomatonIterator(nil, nil, nil)
 		for _, t := range wantTerms {
 			e, err := it.Next()
@@ -102,7 +114,7 @@ func sCheckThesauri(seg segment.Segment, sp *sSynSpec, except *roaring.Bitmap, e
 		vAssert(err == nil && e == nil, tag+"terms-end")
 		var pre segment.SynonymsList
 		var preIt segment.SynonymsIterator
-		for _, t := range append(append([]string{}, vSynTerms...), "unknown") {
+		for _, t := range append(append([]string{}, allTerms...), "unknown") {
 			c, err := thes.Contains([]byte(t))
 			vAssert(err == nil && c == (len(sp.pairs[th][t]) > 0), tag+"contains")
 			sl, err := thes.SynonymsList([]byte(t), except, pre)
